@@ -122,6 +122,7 @@ func c13(p *model.Prog, r *report.Result) {
 	}
 	nilFieldRule(p, r, "C13.NILF", scope, c13NilExceptions, 10, 10)
 	w7ParseAuPremise(p, r, "C13.AUHDR")
+	w8MsgLenBeforeRead(p, r, "C13.MSGLEN")
 	w6NilLocal(p, r, "C13.NILL", 3, "pkg/sdp", "pkg/rtsp", "pkg/rtprtcp", "pkg/gb28181", "pkg/base", "pkg/httpflv", "pkg/hls", "pkg/rtmp", "pkg/logic", "pkg/avc", "pkg/hevc", "pkg/aac", "pkg/mpegts", "pkg/remux", "pkg/httpts")
 }
 
